@@ -561,6 +561,9 @@ class ParsersWorld:
                 # this thread goes through the file entry point: parse_from_file(path, parser_settings=flags, **kw)
                 task["via_file"] = True
                 task["runs"] = runs[:1]
+            elif ro.random() < 0.12:
+                # the object is constructed by ANOTHER thread (the one that starts the workers) and only run here
+                task["ctor_elsewhere"] = True
             if ro.random() < 0.2:
                 # a second object built and run later in the same thread
                 c2 = ro.random()
@@ -693,7 +696,12 @@ class ParsersWorld:
                         gc.collect()
                         S.yield_point("between")
                     try:
-                        p = self.DDLParser(ospec["ddl"], **ospec["flags"])
+                        if oi == 0 and i in prebuilt:
+                            p = prebuilt.pop(i)
+                            if isinstance(p, Exception):
+                                raise p
+                        else:
+                            p = self.DDLParser(ospec["ddl"], **ospec["flags"])
                     except Exception as e:  # noqa
                         p = None
                         outcomes.append((i, oi, -1, ["ctor-exc"] + core.outcome_of_exception(e)[1:]))
@@ -733,13 +741,24 @@ class ParsersWorld:
                     via_paths[spec.get("tid", n_)] = pth
                 except UnicodeError:
                     pass            # not writable as a utf-8 text file: this task uses the plain API
+        prebuilt = {}
+        for n_, spec in enumerate(trace["tasks"]):
+            if spec.get("ctor_elsewhere") and not spec.get("via_file"):
+                try:
+                    prebuilt[spec.get("tid", n_)] = self.DDLParser(spec["ddl"], **spec["flags"])
+                except Exception as e:  # noqa
+                    prebuilt[spec.get("tid", n_)] = e
+        st["stats"]["ctor_elsewhere"] = len(prebuilt)
         seams.HOOKS.point = point
         blocked = None
+        deadlock = None
         try:
             for i, spec in enumerate(trace["tasks"]):
                 S.add_task(spec.get("tid", i), make_body(spec.get("tid", i), spec))
             try:
                 S.run()
+            except sched.Deadlock as e:
+                deadlock = str(e)
             except sched.Blocked as e:
                 blocked = str(e)
         finally:
@@ -753,6 +772,10 @@ class ParsersWorld:
         if blocked:
             return {"status": "inconclusive", "why": blocked, "trace": trace_out,
                     "digest": log.digest(), "ops_digest": log.ops_digest(), "stats": st["stats"]}
+        if deadlock:
+            # a run() that never returns does not return what the object returns alone
+            st["violations"].append({"oracle": "deadlock", "observed": deadlock,
+                                     "expected": "every run() returns (alone in a process each of these calls does)"})
         # oracle: every run() == what that object returns as the only parser in a pristine process
         by_tid = dict((spec.get("tid", n), spec) for n, spec in enumerate(trace["tasks"]))
         cancelled_objs = set((i, oi) for (i, oi, j, out) in outcomes if out[0] == "cancelled")
@@ -813,6 +836,7 @@ class ParsersWorld:
             t.pop("cancel", None)
             t.pop("then", None)
             t.pop("via_file", None)
+            t.pop("ctor_elsewhere", None)
             want = 2 if k == 2 else 1
             while len(t["runs"]) < want:
                 t["runs"].append(dict(t["runs"][0]))
